@@ -49,7 +49,7 @@ fn radix() -> BoxedStrategy<u32> {
 
 /// word-length classes for printing: small most of the time, then the medium/large switch of the
 /// printer (14..16 words), and the squaring ladder of its divide and conquer (16·2^i words)
-fn len_print(huge: bool) -> BoxedStrategy<usize> {
+fn len_print(huge: bool, giant: bool) -> BoxedStrategy<usize> {
     let mut v: Vec<(u32, BoxedStrategy<usize>)> = vec![
         (40, gen::len(Prof::Small)),
         (10, gen::len(Prof::Medium)),
@@ -61,6 +61,9 @@ fn len_print(huge: bool) -> BoxedStrategy<usize> {
     ];
     if huge {
         v = vec![(2, (254usize..=258).boxed()), (2, (506usize..=516).boxed()), (1, (1010usize..=1030).boxed()), (1, (1500usize..=3000).boxed())];
+        if giant {
+            v.push((1, (4000usize..=10000).boxed()));
+        }
     }
     Union::new_weighted(v).boxed()
 }
@@ -89,8 +92,8 @@ fn make_value(r: u32, words: Vec<u64>, sel: u8, ksel: u16, seed: u64, delta: u8,
     Nat::from_big(&v)
 }
 
-fn value_for_radix(huge: bool) -> impl Strategy<Value = (Int, u32)> {
-    (radix(), len_print(huge), 0u8..gen::N_PATTERNS, any::<u64>(), any::<u8>(), any::<u16>(), 0u8..3, any::<bool>()).prop_map(move |(r, n, pat, seed, sel, ksel, delta, neg)| {
+fn value_for_radix(huge: bool, giant: bool) -> impl Strategy<Value = (Int, u32)> {
+    (radix(), len_print(huge, giant), 0u8..gen::N_PATTERNS, any::<u64>(), any::<u8>(), any::<u16>(), 0u8..3, any::<bool>()).prop_map(move |(r, n, pat, seed, sel, ksel, delta, neg)| {
         let mag = make_value(r, gen::expand(n, pat, seed), sel, ksel, seed, delta, huge);
         (Int { neg: neg && !mag.is_zero(), mag }, r)
     })
@@ -495,8 +498,8 @@ struct DebugCase {
     v: Int,
 }
 
-fn debug_case(huge: bool) -> impl Strategy<Value = DebugCase> {
-    (len_print(huge), 0u8..gen::N_PATTERNS, any::<u64>(), any::<u8>(), any::<u16>(), 0u8..3, any::<bool>(), 1usize..1200).prop_map(move |(n, pat, seed, sel, ksel, delta, neg, k)| {
+fn debug_case(huge: bool, giant: bool) -> impl Strategy<Value = DebugCase> {
+    (len_print(huge, giant), 0u8..gen::N_PATTERNS, any::<u64>(), any::<u8>(), any::<u16>(), 0u8..3, any::<bool>(), 1usize..1200).prop_map(move |(n, pat, seed, sel, ksel, delta, neg, k)| {
         // decimal power neighbours 10^k, 10^k ± 1 with arbitrary k: the elided form locates its
         // leading digits through a logarithm estimate
         let mag = if sel >= 200 {
@@ -749,6 +752,9 @@ fn judge(out: &mut Out, ctx: &Ctx, what: &str, c: &ParseCase, got: Parsed, want:
                 out.fail(format!("{what}({text}, radix {}): got ({}, radix {gr}) want ({}, radix {r})", c.radix, show_i(&g), show_i(v)));
             }
         }
+        // an invalid default radix that is not needed because the text carries a prefix: the rustdoc
+        // does not say whether the argument is validated up front
+        (Want::Val(..), Ok(Err(ParseError::UnsupportedRadix))) if c.entry == 3 && !radix_ok(c.radix) => {}
         (Want::Val(v, _), Ok(Err(e))) => out.fail(format!("{what}({text}, radix {}): valid text rejected with {e:?}, want {}", c.radix, show_i(v))),
         (Want::NoDigits, Ok(Err(e))) => {
             if e != ParseError::NoDigits {
@@ -892,7 +898,8 @@ struct Recipe {
     entry: u8,
     radix: u32,
     nsel: u16,
-    big: bool,
+    /// 0: up to 16·dpw digits, 1: around 256·dpw .. 1024·dpw digits, 2: 2048·dpw and 4096·dpw digits
+    big: u8,
     pattern: u8,
     seed: u64,
     sign: u8,
@@ -913,7 +920,9 @@ fn build(rc: &Recipe) -> ParseCase {
         _ => rc.radix,
     };
     let d = dpw(drx);
-    let n = if rc.big {
+    let n = if rc.big == 2 {
+        gen::pick(&[8 * PARSE_CHUNK * d + 1, 16 * PARSE_CHUNK * d + 3], rc.nsel)
+    } else if rc.big == 1 {
         gen::pick(&[PARSE_CHUNK * d - 1, PARSE_CHUNK * d, PARSE_CHUNK * d + 1, 2 * PARSE_CHUNK * d, 2 * PARSE_CHUNK * d + 1, 3 * PARSE_CHUNK * d + 5, 4 * PARSE_CHUNK * d + 1], rc.nsel)
     } else {
         gen::pick(
@@ -993,11 +1002,11 @@ fn build(rc: &Recipe) -> ParseCase {
     ParseCase { text, radix: rc.radix, entry: rc.entry }
 }
 
-fn recipe(big: bool) -> impl Strategy<Value = Recipe> {
+fn recipe(big: u8) -> impl Strategy<Value = Recipe> {
     (0u8..4, radix(), any::<u16>(), 0u8..7, any::<u64>(), 0u8..4, 0u8..5, 0u8..3, 0u8..8).prop_map(move |(entry, radix, nsel, pattern, seed, sign, prefix, lcase, us)| Recipe { entry, radix, nsel, big, pattern, seed, sign, prefix, lcase, us })
 }
 
-fn valid_case(big: bool) -> impl Strategy<Value = ParseCase> {
+fn valid_case(big: u8) -> impl Strategy<Value = ParseCase> {
     recipe(big).prop_map(|rc| build(&rc))
 }
 
@@ -1053,7 +1062,7 @@ fn mutate(base: &ParseCase, kind: u8, psel: u16, csel: u16, seed: u64) -> ParseC
 const NEAR: [char; 27] = ['0', '1', '_', '+', '-', 'x', 'b', 'o', '7', '9', 'a', 'f', 'z', 'A', 'F', 'Z', 'X', 'B', 'O', ' ', '.', '2', '8', 'g', 'e', '\u{660}', 'é'];
 
 fn invalid_case() -> impl Strategy<Value = ParseCase> {
-    let big = prop_oneof![100 => Just(false), 1 => Just(true)];
+    let big = prop_oneof![100 => Just(0u8), 1 => Just(1u8)];
     let mutated = (big.prop_flat_map(recipe), 0u8..5, any::<u16>(), any::<u16>(), any::<u64>()).prop_map(|(rc, kind, psel, csel, seed)| mutate(&build(&rc), kind, psel, csel, seed));
     // short strings over an alphabet close to the grammar: "", "+", "-", "_", "0x", "-0b_", "+-1", ...
     let near = (proptest::collection::vec(0usize..NEAR.len(), 0..9), 0u8..4, radix()).prop_map(|(ix, entry, radix)| ParseCase { text: ix.into_iter().map(|i| NEAR[i]).collect(), radix, entry });
@@ -1500,19 +1509,20 @@ fn main() {
         "(value, radix 2..=36) with value lengths on both sides of the printer's word/dword/medium(15 words)/large switch and its 16·2^i-word squaring ladder, neighbours r^k and r^k±1 of radix powers with k on digits_per_word / 16·dpw / 256·dpw multiples, bit-packing word boundaries for radices 2,4,8,16,32; 208 formatter specs ([fill]align × + × # × 0 × run-time width) × 5 traits + in_radix against pad_integral and the u128/i128 primitives; Debug against its module documentation; texts from the grammar [+-]?(0b|0o|0x)?[digits_]+ with digit counts dpw-1..dpw+1, 2·dpw, 256·dpw-1..+1, 512·dpw, 1024·dpw+1, either letter case, underscores, leading zeros, through FromStr/from_str_radix/from_str_with_radix_prefix/from_str_with_radix_default against a reference parser; single-edit mutations, near-grammar and arbitrary Unicode strings; invalid radices; print->parse round trips; LE/BE bytes (two's complement for IBig) at ±2^(8j+{0,1,4,7})+{0,±1} and arbitrary byte strings; bit chunks k in 0..=300. Non-trivial: value >= 2 words, or text rejected for a reason other than emptiness; distinct by case digest.",
     );
     ck.assume("std's Formatter::pad_integral and the u128/i128 formatting impls as the layout reference");
-    ck.sub("print", (40_000, 600_000), || value_for_radix(false).prop_map(|(v, radix)| PrintCase { v, radix }), print);
-    ck.sub("print_huge", (1_500, 22_000), || value_for_radix(true).prop_map(|(v, radix)| PrintCase { v, radix }), print);
+    let th = ck.thorough();
+    ck.sub("print", (40_000, 600_000), || value_for_radix(false, false).prop_map(|(v, radix)| PrintCase { v, radix }), print);
+    ck.sub("print_huge", (1_500, 22_000), || value_for_radix(true, th).prop_map(|(v, radix)| PrintCase { v, radix }), print);
     ck.sub("layout", (40_000, 600_000), layout_case, layout);
-    ck.sub("debug", (15_000, 225_000), || debug_case(false), debug);
-    ck.sub("debug_huge", (1_000, 15_000), || debug_case(true), debug);
-    ck.sub("parse_valid", (35_000, 525_000), || valid_case(false), parse_oracle);
-    ck.sub("parse_valid_huge", (1_500, 22_000), || valid_case(true), parse_oracle);
+    ck.sub("debug", (15_000, 225_000), || debug_case(false, false), debug);
+    ck.sub("debug_huge", (1_000, 15_000), || debug_case(true, th), debug);
+    ck.sub("parse_valid", (35_000, 525_000), || valid_case(0), parse_oracle);
+    ck.sub("parse_valid_huge", (1_500, 22_000), move || if th { prop_oneof![5 => valid_case(1), 1 => valid_case(2)].boxed() } else { valid_case(1).boxed() }, parse_oracle);
     ck.sub("parse_invalid", (40_000, 600_000), invalid_case, parse_oracle);
     ck.sub(
         "radix_invalid",
         (2_000, 30_000),
         || {
-            (gen::int(Prof::Tiny), valid_case(false), any::<u16>(), any::<u32>()).prop_map(|(v, pc, rsel, any)| BadRadixCase {
+            (gen::int(Prof::Tiny), valid_case(0), any::<u16>(), any::<u32>()).prop_map(|(v, pc, rsel, any)| BadRadixCase {
                 v,
                 text: pc.text,
                 radix: gen::pick(&[37u32, 0, 1, 38, 64, 255, 256, u32::MAX, any.max(37)], rsel),
@@ -1520,8 +1530,8 @@ fn main() {
         },
         bad_radix,
     );
-    ck.sub("roundtrip", (15_000, 225_000), || value_for_radix(false).prop_map(|(v, radix)| PrintCase { v, radix }), roundtrip);
-    ck.sub("roundtrip_huge", (600, 9_000), || value_for_radix(true).prop_map(|(v, radix)| PrintCase { v, radix }), roundtrip);
+    ck.sub("roundtrip", (15_000, 225_000), || value_for_radix(false, false).prop_map(|(v, radix)| PrintCase { v, radix }), roundtrip);
+    ck.sub("roundtrip_huge", (600, 9_000), || value_for_radix(true, th).prop_map(|(v, radix)| PrintCase { v, radix }), roundtrip);
     ck.sub("bytes", (20_000, 300_000), bytes_value_case, bytes_value);
     ck.sub("bytes_raw", (15_000, 225_000), raw_bytes_case, bytes_raw);
     ck.sub(
